@@ -28,6 +28,7 @@ mod spill;
 mod typing;
 mod distplan;
 mod morsel;
+mod rtfilter;
 
 fn main() {
     let args: Vec<String> = std::env::args().collect();
@@ -88,6 +89,8 @@ fn main() {
         "morsel-free" => morsel::free(rest),
         "morsel-readall" => morsel::readall(rest),
         "morsel-agg" => morsel::agg(rest),
+        "rtfilter-contains" => rtfilter::contains(rest),
+        "rtfilter-run" => rtfilter::run(rest),
         other => {
             eprintln!("unknown subcommand {other}");
             2
